@@ -343,6 +343,24 @@ def run(chk):
     r10.anchor(nsites >= 1, "sites that shrink Conversion_Saves::saves (found %d)" % nsites)
     r10.require(2, "obligations")
 
+    # ------------------------------------------------------------------ R11.11 = C14 R14.1: nothing an engine creates is owned by storage that outlives the engine
+    if not getattr(chk, "nested", False):
+        from .. import core
+        from . import c14
+        r11 = chk.rule("R11.11", "no object with static or thread storage duration can own objects created on behalf of a script (C14 R14.1's inventory re-decided)",
+                       "every object created on behalf of a script is destroyed at the latest when the engine is destroyed")
+        sub = core.Check("C14", tier=chk.tier)
+        sub.prog = prog
+        sub.nested = True
+        c14.run(sub)
+        sr = [r for r in sub.rules if r.rid == "R14.1"]
+        r11.anchor(bool(sr), "C14 R14.1")
+        for v in [v for v in sub.violations if v["rule"] == "R14.1"]:
+            r11.ob("R14.1: %s" % v["instance"], False, v["where"], v["function"],
+                   v["detail"] + " - whatever it holds (conversion temporaries, cached values) is released when the thread or the process ends, not when the engine does")
+        r11.ob("C14 R14.1 decided (%d obligations)" % sr[0].obligations, True, "", "", "")
+        r11.require(1, "rule")
+
     # ------------------------------------------------------------------ R11.8
     r8 = chk.rule("R11.8", "the evaluator's scope guard pushes a new saved-argument list only after the pending conversion temporaries were attached to the current one",
                   "a converted temporary bound to a parameter of a C++ function lives for the whole call, also when that function runs a script callback which opens a scope and makes a call")
